@@ -7,6 +7,7 @@
  *   X id=<n> sid=<hex|-> rid=<hex|-> idctx=<hex|-> salt=<hex|-> secret=<hex>     (sid: client's sender id, rid: server's sender id)
  *   M <method> <seq|-1> <opts|-> <payload hex|-> <response code> <response opts|-> <response payload hex|->
  *        one exchange; opts = num:hex,num:hex,... ; seq: the client's sender sequence number is set to it first
+ *   O <n>      observe: register GET /o (Observe=0) under one token, n notifications, then cancel (Observe=1) under the SAME token
  *   T <step>   tamper with the request of the last M line: every <step>-th single-bit flip and every truncation of the protected
  *        datagram (each on a fresh protection of the same request, the genuine datagram being withheld), then a request
  *        protected under a different master secret, then an untouched request
@@ -31,6 +32,9 @@ static uint8_t cap[4096];
 static size_t ncap;
 static int capture_and_drop, peer_code;
 static unsigned tokc;
+static int notifying;                /* the handler runs for a notification, not for a received request */
+static coap_resource_t *res_o;
+static int ostate;
 static int quiet;                    /* tamper loops: only the Tamper summary lines are logged */
 
 static void arr(const uint8_t *b, size_t n) {
@@ -102,6 +106,16 @@ static void h_req(coap_resource_t *r, coap_session_t *s, const coap_pdu_t *req, 
   int i;
   (void)r; (void)s; (void)q;
   handled++;
+  if (r == res_o) {
+    char b[16];
+    if (!notifying) log_pdu("Got", "s", req);
+    coap_pdu_set_code(resp, COAP_RESPONSE_CODE_CONTENT);
+    coap_insert_option(resp, COAP_OPTION_CONTENT_FORMAT, 1, (const uint8_t *)"\x00");
+    snprintf(b, sizeof(b), "state-%d", ostate);
+    coap_add_data(resp, strlen(b), (const uint8_t *)b);
+    log_pdu("Msg", "s", resp);
+    return;
+  }
   log_pdu("Got", "s", req);
   coap_pdu_set_code(resp, (coap_pdu_code_t)rcode);
   for (i = 0; i < npopts; i++) coap_insert_option(resp, (coap_option_num_t)popts[i].num, popts[i].n, popts[i].v);
@@ -137,11 +151,17 @@ static char region(const uint8_t *d, size_t n, size_t k) {
     if (l == 13) { l = d[i] + 13u; i++; } else if (l == 14) { l = (size_t)((d[i] << 8) | d[i + 1]) + 269; i += 2; }
     num += dl;
     if (k >= h && k < i) return 'x';
-    if (k >= i && k < i + l) return num == 9 ? 'o' : 'x';
+    if (k >= i && k < i + l) return num == 9 ? (k == i ? 'O' : 'o') : 'x';      /* O: the flag byte of the OSCORE option */
     i += l;
   }
   if (k == i) return 'm';
   return 'c';
+}
+/* the k flag of the option's first byte says "a kid follows": with an empty kid the two encodings denote the same COSE object, and the flag
+   byte itself is not covered by the AAD (RFC 8613 5.4) - such a flip changes nothing that is protected: region f (either) */
+static char flipreg(char r, int bit) {
+  if (r != 'O') return r;
+  return (bit == 3 && sid[0] == '-') ? 'f' : 'o';
 }
 static void on_peer_rx(const sim_dgram_t *dg) { if (dg->len >= 4) peer_code = dg->data[1]; }
 
@@ -241,6 +261,11 @@ int main(int argc, char **argv) {
       r = coap_resource_unknown_init2(h_req, COAP_RESOURCE_FLAGS_OSCORE_ONLY);
       { int m; for (m = 1; m <= 7; m++) coap_register_request_handler(r, (coap_request_t)m, h_req); }
       coap_add_resource(sctx, r);
+      res_o = coap_resource_init(coap_make_str_const("o"), COAP_RESOURCE_FLAGS_OSCORE_ONLY);
+      coap_register_request_handler(res_o, COAP_REQUEST_GET, h_req);
+      coap_resource_set_get_observable(res_o, 1);
+      coap_add_resource(sctx, res_o);
+      ostate = 0;
       c = mkconf(0, secret);
       if (!c || !coap_context_oscore_server(sctx, c)) fputs("{\"e\":\"Skip\",\"why\":\"server context refused\"}\n", sim_trace);
       sim_add_node(sctx);
@@ -281,6 +306,34 @@ int main(int argc, char **argv) {
       coap_send(csess, pdu);
       sim_run(sim_now + 2000);
       fprintf(sim_trace, "{\"e\":\"Done\",\"handled\":%d}\n", handled);
+    } else if (line[0] == 'O') {
+      int n = atoi(line + 1), k, step;
+      uint8_t tk[2];
+      tokc++;
+      tk[0] = (uint8_t)(0xb0 | (tokc >> 8)); tk[1] = (uint8_t)tokc;
+      for (step = 0; step < 2; step++) {                 /* 0: register, then notifications; 1: cancel under the same token */
+        coap_pdu_t *pdu = coap_new_pdu(COAP_MESSAGE_NON, COAP_REQUEST_CODE_GET, csess);
+        uint8_t ov = (uint8_t)step;
+        coap_add_token(pdu, 2, tk);
+        coap_insert_option(pdu, COAP_OPTION_OBSERVE, step ? 1 : 0, &ov);
+        coap_insert_option(pdu, COAP_OPTION_URI_PATH, 1, (const uint8_t *)"o");
+        fprintf(sim_trace, "{\"e\":\"Exchange\",\"pivb\":[-1],\"observe\":%d}\n", step);
+        log_pdu("Msg", "c", pdu);
+        handled = 0;
+        coap_send(csess, pdu);
+        sim_run(sim_now + 2000);
+        fprintf(sim_trace, "{\"e\":\"Done\",\"handled\":%d}\n", handled);
+        for (k = 0; step == 0 && k < n; k++) {
+          ostate++;
+          fprintf(sim_trace, "{\"e\":\"Notify\",\"k\":%d}\n", k + 1);
+          notifying = 1;
+          handled = 0;
+          coap_resource_notify_observers(res_o, NULL);
+          sim_run(sim_now + 2000);
+          notifying = 0;
+          fprintf(sim_trace, "{\"e\":\"NotifyDone\",\"handled\":%d}\n", handled);
+        }
+      }
     } else if (line[0] == 'T') {
       int step = atoi(line + 1), k;
       size_t nbits, i;
@@ -308,7 +361,7 @@ int main(int argc, char **argv) {
         sim_run(sim_now + 10);
         capture_and_drop = 1;
         fprintf(sim_trace, "{\"e\":\"Tamper\",\"kind\":\"%s\",\"pos\":%zu,\"region\":\"%c\",\"handled\":%d}\n", i < nbits ? "flip" : "trunc", i < nbits ? i : tn,
-                i < nbits ? region(cap, ncap, i / 8) : 't', handled);
+                i < nbits ? flipreg(region(cap, ncap, i / 8), (int)(i % 8)) : 't', handled);
       }
       capture_and_drop = 0;
       /* the same request protected under another master secret (same ids) */
